@@ -12,7 +12,7 @@ From Coupe Require Import Lib.Prelude Lib.SFloat Model.Rcb Gen.RcbGen
 From Coq Require Import Floats.SpecFloat Permutation.
 Open Scope Z_scope.
 
-Definition rcb_variant : variant := mkvariant rcb_old_rules rcb_by_coord rcb_probe_max rcb_safe_mid.
+Definition rcb_variant : variant := mkvariant rcb_old_rules rcb_by_coord rcb_probe_max rcb_safe_mid rcb_clamp_cast.
 Definition rcb_impl := rcb rcb_variant.
 
 (* the source implements the variant the balance proof is about (repaired stop
@@ -36,6 +36,19 @@ Theorem C04_rcb_split_balanced : forall fuel sched D k tol pts ws p0 p,
             /\ BalTree spec_float flt (tol_test tol) D k 0%nat t.
 Proof. exact rcb_split_balanced_contract. Qed.
 Print Assumptions C04_rcb_split_balanced.
+
+(* The whole contract "finite coordinates": every finite f64 value (canonical
+   binary64), also beyond the binary32 range.  With the clamped cast of the
+   current source (C04_variant_is_head) such a coordinate counts as +-f32::MAX;
+   the points that share that image form one group of equal binary32
+   coordinate, like any other group.  No premise beyond the contract. *)
+Theorem C04_rcb_split_balanced_finite_f64 : forall fuel sched D k tol pts ws p0 p,
+  Forall (fun pt => length pt = D) pts -> coords_finite_valid64 pts -> Forall (fun w => 0 <= w) ws ->
+  rcb_impl fuel sched D k tol pts ws p0 = Ok p ->
+  exists t, Permutation t (combine (combine (to32c true pts) ws) p)
+            /\ BalTree spec_float flt (tol_test tol) D k 0%nat t.
+Proof. exact rcb_split_balanced_finite_f64. Qed.
+Print Assumptions C04_rcb_split_balanced_finite_f64.
 
 (* the midpoint of two finite binary32 values is finite, and when it is not
    strictly between them no finite value is *)
@@ -72,7 +85,7 @@ Print Assumptions C04_generic.
 Theorem C04_checker_sound : forall D k tol pts ws ids,
   check_balance32 D k tol pts ws ids = true ->
   length pts = length ids /\ length ws = length ids
-  /\ exists t, Permutation t (combine (combine (to32 pts) ws) ids)
+  /\ exists t, Permutation t (combine (combine (to32c true pts) ws) ids)
                /\ BalTree spec_float flt (tol_test tol) D k 0%nat t.
 Proof. exact check_balance32_sound. Qed.
 Print Assumptions C04_checker_sound.
@@ -100,13 +113,40 @@ Theorem C04_refuted_midpoint_overflow : refuted v_unsafe_mid.
 Proof. exact rcb_c04_refuted_overflow. Qed.
 Print Assumptions C04_refuted_midpoint_overflow.
 
+(* FALSE with the PLAIN cast `as f32` beyond the binary32 range (the code before
+   the clamp fix; flag rcb_clamp_cast = false).  A finite f64 above f32::MAX
+   became +inf: an infinite box bound makes the midpoint infinite or NaN, the
+   interval is exhausted at once, the only probe is made at max, and a point at
+   +inf can never be the pivot.  Search-level witnesses on coordinates holding
+   an infinity (which only the plain cast produces), and the whole algorithm
+   with the plain cast on x = 0,1,2,3,1e39 (one part) and x = -1e39,0,1,2,3
+   (4 | 1); with the clamped cast both are cut 3 | 2 and the certified checker,
+   which judges the clamped images, rejects the former outputs. *)
+Theorem C04_refuted_beyond_f32_plus : refuted_nonnan head_variant.
+Proof. exact rcb_c04_refuted_beyond_f32_plus. Qed.
+Theorem C04_refuted_beyond_f32_minus : refuted_nonnan head_variant.
+Proof. exact rcb_c04_refuted_beyond_f32_minus. Qed.
+Print Assumptions C04_refuted_beyond_f32_minus.
+Theorem C04_refuted_plain_cast_outputs :
+  rcb (head_variant_c false) 400 seq_sched 2 1 tol005 (pts_x [0; 1; 2; 3; 10 ^ 39]) [1;1;1;1;1] [9;9;9;9;9]%N = Ok [0;0;0;0;0]%N
+  /\ rcb (head_variant_c false) 400 seq_sched 2 1 tol005 (pts_x [- 10 ^ 39; 0; 1; 2; 3]) [1;1;1;1;1] [9;9;9;9;9]%N = Ok [0;0;0;0;1]%N
+  /\ check_balance32 2 1 tol005 (pts_x [0; 1; 2; 3; 10 ^ 39]) [1;1;1;1;1] [0;0;0;0;0]%N = false
+  /\ check_balance32 2 1 tol005 (pts_x [- 10 ^ 39; 0; 1; 2; 3]) [1;1;1;1;1] [0;0;0;0;1]%N = false.
+Proof. exact (conj rcb_beyond_f32_one_part (conj rcb_beyond_f32_lopsided (conj (proj1 checker_beyond_f32) (proj1 (proj2 checker_beyond_f32))))). Qed.
+Theorem C04_clamped_cast_repairs :
+  rcb head_variant 400 seq_sched 2 1 tol005 (pts_x [0; 1; 2; 3; 10 ^ 39]) [1;1;1;1;1] [9;9;9;9;9]%N = Ok [0;0;0;1;1]%N
+  /\ rcb head_variant 400 seq_sched 2 1 tol005 (pts_x [- 10 ^ 39; 0; 1; 2; 3]) [1;1;1;1;1] [9;9;9;9;9]%N = Ok [0;0;0;1;1]%N
+  /\ rcb head_variant 400 seq_sched 2 1 tol005 (pts_x [- 10 ^ 39; 0; 1; 2; 3; 10 ^ 39]) [1;1;1;1;1;1] [9;9;9;9;9;9]%N
+     = Ok [0;0;0;1;1;1]%N.
+Proof. exact rcb_beyond_f32_clamped. Qed.
+
 (* non-vacuity: an outlier input satisfies the premises that can be computed,
    the model returns the balanced 3 | 3 and the checker accepts it *)
 Definition ex_pts4 : list (list spec_float) :=
   map (map f64_of_Z) [[0; 0]; [1; 0]; [2; 0]; [3; 0]; [4; 0]; [20; 0]].
 Example C04_nonvacuous :
   rcb_impl 400 seq_sched 2 1 tol005 ex_pts4 [1; 1; 1; 1; 1; 1] [9; 9; 9; 9; 9; 9]%N = Ok [0; 0; 0; 1; 1; 1]%N
-  /\ box_ok32 2 ex_pts4 [1; 1; 1; 1; 1; 1] = true
+  /\ box_ok32c true 2 ex_pts4 [1; 1; 1; 1; 1; 1] = true
   /\ check_balance32 2 1 tol005 ex_pts4 [1; 1; 1; 1; 1; 1] [0; 0; 0; 1; 1; 1]%N = true.
 Proof. repeat split; vm_compute; reflexivity. Qed.
 Example C04_nonvacuous_contract : contract_range ex_pts4 [1; 1; 1; 1; 1; 1].
